@@ -303,14 +303,15 @@ def _delj_lemma_unit(N):
 
 
 # ------------------------------------------------------------------------------------------ drivers
-def _driver_unit(nd, L, mode, frozen=None, delj=0, only_sweep=None):
+def _driver_unit(nd, L, mode, frozen=None, delj=0, only_sweep=None, points=None):
     """mode: 'const' (scalars) or 'func' (lambda t: const)."""
     npop = nd
     frozen = frozen or [False] * nd
 
     def body(env):
         from dadi import Integration
-        xx = env.grid('x', L)
+        # points: a rational grid (keeps branch conditions that the drivers put on M*dx low-degree for the solver)
+        xx = env.grid('x', L) if points is None else env.grid('x', L, symbolic=False, points=points)
         phi = env.array('p', (L,) * nd)
         nus = [env.pos('nu%d' % (i + 1)) for i in range(nd)]
         gammas = [env.real('gamma%d' % (i + 1)) for i in range(nd)]
@@ -518,8 +519,9 @@ def _driver_unit(nd, L, mode, frozen=None, delj=0, only_sweep=None):
         finally:
             Integration._compute_dt, Integration.use_delj_trick = saved
     fz = ''.join('F' if f else '-' for f in frozen)
-    return H.Unit('driver-%dpop-%s-L%d-frozen%s%s%s' % (nd, mode, L, fz, '' if only_sweep is None else '-sweep%d' % only_sweep, '-delj1' if delj else ''),
-                  body, params=dict(pops=nd, mode=mode, L=L, frozen=list(frozen), delj=delj, only_sweep=only_sweep),
+    return H.Unit('driver-%dpop-%s-L%d-frozen%s%s%s%s' % (nd, mode, L, fz, '' if only_sweep is None else '-sweep%d' % only_sweep, '-delj1' if delj else '', '' if points is None else '-rationalgrid'),
+                  body, params=dict(pops=nd, mode=mode, L=L, frozen=list(frozen), delj=delj, only_sweep=only_sweep,
+                                    grid=None if points is None else [str(p_) for p_ in points]),
                   min_obligations=L ** nd, timeout_s=1200, query_timeout_ms=60000, maxpaths=200)
 
 
@@ -637,6 +639,10 @@ def units(tier, seed):
                 if any(fz) and not all(fz):
                     for mode in ('const', 'func'):
                         us.append(_driver_unit(nd, L, mode, list(fz)))
+        if nd <= 2:
+            # delj on, rational non-uniform grid: branch conditions on M*dx inside the Python builders stay low-degree
+            from fractions import Fraction as Fr_
+            us.append(_driver_unit(nd, 4, 'const', delj=1, points=[Fr_(0), Fr_(1, 16), Fr_(5, 8), Fr_(1)]))
         if thorough and nd <= 3:
             us.append(_driver_unit(nd, 5 if nd < 3 else 4, 'const'))
             us.append(_driver_unit(nd, 5 if nd < 3 else 4, 'func'))
